@@ -41,11 +41,43 @@ fn soak_parser(cfg: &ParserCfg) -> Arc<CooklangParser> {
     })
 }
 
+pub static NO_SOAK: std::sync::atomic::AtomicBool = std::sync::atomic::AtomicBool::new(false);
+
 /// the scenario being executed, for re-entrant nested operations started from a seam
 static ENV: std::sync::RwLock<Option<Arc<Env>>> = std::sync::RwLock::new(None);
 
 fn env_set(e: Option<Arc<Env>>) {
     *ENV.write().unwrap_or_else(|p| p.into_inner()) = e;
+}
+
+/// Shadow builds (feature `shadow`) link a copy of the library whose `std::sync` primitives were
+/// rewritten to shuttle's, so that every atomic / lock operation is a scheduling point. Those
+/// types only work inside a shuttle execution: everything that touches the library then runs
+/// inside one. Normal builds call `f` directly.
+pub fn in_shuttle<R: Send + 'static>(f: impl FnOnce() -> R + Send + 'static) -> R {
+    #[cfg(not(feature = "shadow"))]
+    {
+        f()
+    }
+    #[cfg(feature = "shadow")]
+    {
+        let cell = Arc::new(std::sync::Mutex::new(Some(f)));
+        let out: Arc<std::sync::Mutex<Option<R>>> = Arc::new(std::sync::Mutex::new(None));
+        let (c2, o2) = (cell.clone(), out.clone());
+        let mut cfg = shuttle::Config::new();
+        cfg.stack_size = 1 << 20;
+        cfg.failure_persistence = shuttle::FailurePersistence::None;
+        cfg.max_steps = shuttle::MaxSteps::None;
+        cfg.silence_warnings = true;
+        shuttle::Runner::new(SimScheduler::new(SchedSpec::List { choices: vec![] }), cfg).run(move || {
+            if let Some(f) = c2.lock().unwrap().take() {
+                let r = f();
+                *o2.lock().unwrap() = Some(r);
+            }
+        });
+        let r = out.lock().unwrap().take();
+        r.expect("in_shuttle: the closure did not complete")
+    }
 }
 
 pub const TEMPLATE_HASH_SEED: u64 = 0x00C0_FFEE_0000_0001;
@@ -584,6 +616,11 @@ pub fn reference_phase(sc: &Scenario) -> RefPhase {
 /// imprecisely (a static cache) gives order-dependent references; two fresh
 /// processes that differ only in this order must produce the same table.
 pub fn reference_phase_ordered(sc: &Scenario, reverse: bool) -> RefPhase {
+    let sc = sc.clone();
+    in_shuttle(move || reference_phase_inner(&sc, reverse))
+}
+
+fn reference_phase_inner(sc: &Scenario, reverse: bool) -> RefPhase {
     sim::with(|s| {
         *s = sim::SimCtx::new();
     });
@@ -686,6 +723,40 @@ pub fn reference_phase_ordered(sc: &Scenario, reverse: bool) -> RefPhase {
     RefPhase { env: Arc::new(env), violations, ref_keys }
 }
 
+
+/// Phase 3: faults have stopped; every key is re-observed sequentially on the shared (now used)
+/// parsers, on clones of them and on the worker's long-lived parser.
+fn post_phase(env: &Arc<Env>) {
+    for op in env.sc.all_ops() {
+        let mut clean = op.clone();
+        clean.faults.clear();
+        let o = perform(&env.parsers[op.parser], &env.sc.inputs[op.input], &clean, false, 0);
+        check(&env, &clean, &o, "post", false);
+    }
+    // ... and on clones of the used parsers: a clone must not inherit anything that
+    // changes results (state shared through an Arc, a copied cache)
+    let clones: Vec<CooklangParser> = env.parsers.iter().map(|p| p.clone()).collect();
+    for op in env.sc.all_ops() {
+        let mut clean = op.clone();
+        clean.faults.clear();
+        let o = perform(&clones[op.parser], &env.sc.inputs[op.input], &clean, false, 0);
+        check(&env, &clean, &o, "post-clone", false);
+    }
+    // ... and on the worker's long-lived parser of that configuration (not while minimising:
+    // a soak parser damaged by one candidate would make every later candidate "fail")
+    if NO_SOAK.load(std::sync::atomic::Ordering::Relaxed) {
+        return;
+    }
+    for op in env.sc.all_ops() {
+        let mut clean = op.clone();
+        clean.faults.clear();
+        let soak = soak_parser(&env.sc.parsers[op.parser]);
+        cooklang::verif_seam::reseed(env.sc.hash_seed ^ 0x50A7);
+        let o = perform(&soak, &env.sc.inputs[op.input], &clean, false, 0);
+        check(&env, &clean, &o, "soak", false);
+    }
+}
+
 /// Phases 2 and 3 for one schedule.
 pub fn execute(rp: &RefPhase, sched: &SchedSpec, want_log: bool) -> (Vec<Violation>, RunStats) {
     let env = rp.env.clone();
@@ -732,6 +803,12 @@ pub fn execute(rp: &RefPhase, sched: &SchedSpec, want_log: bool) -> (Vec<Violati
             for h in handles {
                 let _ = h.join();
             }
+            // shadow builds: the library's sync primitives only work inside the execution
+            #[cfg(feature = "shadow")]
+            {
+                sim::with(|s| s.in_sim = false);
+                post_phase(&env);
+            }
         });
     }));
     sim::with(|s| s.in_sim = false);
@@ -741,32 +818,8 @@ pub fn execute(rp: &RefPhase, sched: &SchedSpec, want_log: bool) -> (Vec<Violati
         let class = if msg.contains("exceeded max_steps") { "hang" } else if msg.contains("deadlock") { "deadlock" } else { "harness-panic" };
         sim::violation(class, "", "perturbed", format!("{msg} / {:?}", sim::take_last_panic()));
     }
-    // Phase 3: faults have stopped; every key is re-observed sequentially on the
-    // shared (now used) parsers.
-    for op in env.sc.all_ops() {
-        let mut clean = op.clone();
-        clean.faults.clear();
-        let o = perform(&env.parsers[op.parser], &env.sc.inputs[op.input], &clean, false, 0);
-        check(&env, &clean, &o, "post", false);
-    }
-    // ... and on clones of the used parsers: a clone must not inherit anything that
-    // changes results (state shared through an Arc, a copied cache)
-    let clones: Vec<CooklangParser> = env.parsers.iter().map(|p| p.clone()).collect();
-    for op in env.sc.all_ops() {
-        let mut clean = op.clone();
-        clean.faults.clear();
-        let o = perform(&clones[op.parser], &env.sc.inputs[op.input], &clean, false, 0);
-        check(&env, &clean, &o, "post-clone", false);
-    }
-    // ... and on the worker's long-lived parser of that configuration
-    for op in env.sc.all_ops() {
-        let mut clean = op.clone();
-        clean.faults.clear();
-        let soak = soak_parser(&env.sc.parsers[op.parser]);
-        cooklang::verif_seam::reseed(env.sc.hash_seed ^ 0x50A7);
-        let o = perform(&soak, &env.sc.inputs[op.input], &clean, false, 0);
-        check(&env, &clean, &o, "soak", false);
-    }
+    #[cfg(not(feature = "shadow"))]
+    post_phase(&env);
     let choices = record.lock().unwrap().clone();
     sim::with(|s| {
         let stats = RunStats {
